@@ -435,7 +435,7 @@ def correspondence(pid, wd, cases, outs, shard=None, tag="w"):
     import concurrent.futures as cf
     jobs = []
     if shard is None:
-        shard = max(8, (len(cases) + 15) // 16)
+        shard = min(max(8, (len(cases) + 15) // 16), 48)     # one coqc per shard: memory grows with the size of the case file
     for si in range(0, len(cases), shard):
         jobs.append((si, cases[si:si + shard], outs[si:si + shard]))
 
@@ -447,7 +447,7 @@ def correspondence(pid, wd, cases, outs, shard=None, tag="w"):
             raise RuntimeError("coq evaluation of cases failed:\n" + out[-3000:])
         return [(si + c, s, codes) for (c, s, codes) in mm]
 
-    with cf.ThreadPoolExecutor(max_workers=16) as ex:
+    with cf.ThreadPoolExecutor(max_workers=12) as ex:
         for r in ex.map(work, jobs):
             for (c, s, codes) in r:
                 dis.append({"case": c, "step": s, "codes": codes, "names": [CODE_NAMES.get(x, str(x)) for x in codes]})
